@@ -203,7 +203,7 @@ theorem derives_unique_compute (d : Gen.D) (ts ts' : List Tok) (e e' : Expr) (it
 EXISTS with what they stand for), operators the keyword tokens; a chain of predicate tails `[NOT] BETWEEN f AND t`, `[NOT] IS a`,
 `IS NOT a`, `[NOT] LIKE / RLIKE / REGEXP a`, `[NOT] IN g`, each taking everything to its left as its left operand -/
 theorem keyword_skeleton_exists (d : Gen.D) (L : Nat) (ts : List Tok) (e : Expr) (h : Derives d L ts e) (hL : L ≤ 9) :
-    ∃ items, flatI items = ts ∧ KD d items e ∧ ∀ u a, Item.atom (u, a) ∈ items → AtomK d u a := skelK_of h hL
+    ∃ items, flatI items = ts ∧ KD d items e ∧ ∀ u a, OPG.Item.atom (u, a) ∈ items → AtomK d u a := skelK_of h hL
 theorem derives_unique_keyword (d : Gen.D) (items : List It) (e e' : Expr) (h : KD d items e) (h' : KD d items e') : e = e' :=
   h.unique h'
 
